@@ -110,7 +110,9 @@ theorem legacy_digest_pure (sha256 : Bytes → Bytes) (T : Tables) (h : H) (hcl 
     (hs : self < h.length) (hcode : code < h.length) (i ht : Nat) (h' : H) (d : Bytes)
     (hd : legacyDigestH sha256 T h self i code ht = .ok (h', d)) :
     h'.length ≥ h.length ∧ (∀ x, x < h.length → h'[x]? = h[x]?) ∧ viewTx h' self = viewTx h self := by
-  sorry
+  obtain ⟨tmp, ws, hp⟩ := HeapLemmas.legacyDigestH_ok hd
+  obtain ⟨ext, rfl⟩ := HeapLemmas.prepare_ext hp
+  exact ⟨by simp, fun x hx => HeapLemmas.get_ext_lt ext hx, HeapLemmas.viewTx_ext_closed hcl hs ext⟩
 
 /-- … and it computes exactly the digest of the pure model (C03) on the value the transaction denotes -/
 theorem legacy_digest_value (sha256 : Bytes → Bytes) (T : Tables) (h : H) (hcl : closed h) (self code : Ref)
